@@ -97,7 +97,20 @@ class WriterExec:
                 return (not v2), txt
         if txt in self.assume:
             return self.assume[txt], txt
-        # comparison forms normalised: `a != b` from `a == b`
+        # an assumption stated for any spelling of the same comparison (operands swapped and / or negated) applies
+        if isinstance(sub, ast.Compare) and len(sub.ops) == 1:
+            sym = {ast.Lt: "<", ast.LtE: "<=", ast.Gt: ">", ast.GtE: ">=", ast.Eq: "==", ast.NotEq: "!=", ast.Is: "is", ast.IsNot: "is not",
+                   ast.In: "in", ast.NotIn: "not in"}.get(type(sub.ops[0]))
+            flip = {"<": ">", "<=": ">=", ">": "<", ">=": "<=", "==": "==", "!=": "!="}
+            neg = {"<": ">=", ">=": "<", ">": "<=", "<=": ">", "==": "!=", "!=": "==", "is": "is not", "is not": "is", "in": "not in", "not in": "in"}
+            if sym:
+                l, r = ast.unparse(sub.left), ast.unparse(sub.comparators[0])
+                forms = [("%s %s %s" % (l, sym, r), True), ("%s %s %s" % (l, neg[sym], r), False)]
+                if sym in flip:
+                    forms += [("%s %s %s" % (r, flip[sym], l), True), ("%s %s %s" % (r, flip[neg[sym]], l), False)]
+                for ftxt, same in forms:
+                    if ftxt in self.assume:
+                        return (self.assume[ftxt] if same else not self.assume[ftxt]), txt
         if isinstance(sub, ast.Compare) and len(sub.ops) == 1:
             l, r = ast.unparse(sub.left), ast.unparse(sub.comparators[0])
             for a, b in ((l, r), (r, l)):
